@@ -11,6 +11,11 @@ theorems PV.Props.C02, tie:
       maximal schedules covering EVERY transition is replayed on the C side.
       RANDOM: 8-16 threads, long programs, random spurious wake-ups (the C side schedules itself,
       the chosen schedule is then replayed on both sides).
+      FAILING PRIMITIVES: op `fail T` = the p_mutex_lock / p_mutex_unlock / p_cond_variable_wait / signal / broadcast call
+      thread T is suspended at returns FALSE (model: PV.RWLock.failStep); state graphs with up to 3 failing calls per path,
+      one directed schedule per failure branch, random schedules with failures; `free` / `newfail K` = p_rwlock_free on a live
+      lock / p_rwlock_new with allocation K failing; sticky oracle !INCONSISTENT (counter fields = user-level holders whenever
+      the internal mutex is free).
   posix: pthread_rwlock_* wrapped at link time with scripted return codes vs. the mapping model.
   thorough: real threads under clang-14 -fsanitize=thread for both implementations (supporting).
 """
@@ -315,6 +320,7 @@ def posix_cases(rng, n):
     for op in OPS:
         cases.append(["call %s %d" % (op, c) for c in codes] + ["null " + op, "ident"])
     cases.append(["new %d" % c for c in codes] + ["ident"])
+    cases.append(["free %d" % c for c in codes] + ["ident", "call rlock 0", "free 16", "call runlock 0"])
     cases.append(["ident", "ident"])
     for _ in range(n):
         c = []
@@ -324,7 +330,9 @@ def posix_cases(rng, n):
                 c.append("call %s %d" % (rng.choice(OPS), rng.choice(codes + [rng.randrange(-200, 200)])))
             elif r < 0.91:
                 c.append("null " + rng.choice(OPS))
-            elif r < 0.94:
+            elif r < 0.93:
+                c.append("free %d" % rng.choice(codes))
+            elif r < 0.95:
                 c.append("ident")
             else:
                 c.append("new %d" % rng.choice(codes))
@@ -578,13 +586,18 @@ def run(chk):
     chk.cov["rule"] = ("schedules over programs of lock/unlock rounds (R W tryR tryW): exhaustive part = for each small program mix the whole reachable state graph of the model "
                        "(spurious wake-ups and every signal choice included) and a set of maximal schedules covering every transition, each replayed step by step on the C code; "
                        "random part = 8-16 threads, up to %d rounds each, spurious wake-up probability 0-50%%, schedule chosen by the harness and replayed on both sides; "
-                       "plus undisciplined small programs (correspondence only) and scripted pthread return codes for the posix mapping. "
+                       "plus undisciplined small programs (correspondence only), the same three kinds with failing primitive calls (`fail T`: state graphs with a bounded number of failures per path, "
+                       "a directed schedule per failure branch, random), p_rwlock_free / failing p_rwlock_new, and scripted pthread return codes for the posix mapping. "
                        "distinct = hash of the op file (program mix for the exhaustive part); non-trivial = more than one op" % (40 if thorough else 16))
     chk.cov["exhaustive"] = False
-    chk.assumptions += ["pthread mutex / condition variable satisfy POSIX (Mesa semantics: wait atomically releases the mutex, signal wakes at most one waiter, spurious wake-ups allowed); p_mutex_lock / p_cond_variable_wait on valid objects return TRUE",
+    chk.assumptions += ["pthread mutex / condition variable satisfy POSIX (Mesa semantics: wait atomically releases the mutex, signal wakes at most one waiter, spurious wake-ups allowed); for the liveness half (no deadlock, termination) "
+                        "the primitives never fail; the safety half (exclusion, counter refinement, FALSE = nothing acquired) is proved and run WITH failing primitive calls (op `fail T`), assuming a failed call has no effect "
+                        "(a failed p_mutex_unlock leaves the mutex owned, a failed wait returns at once still owning it, a failed signal wakes nobody)",
+                        "client convention under failures: a thread stops after an unlock call that failed at its p_mutex_lock (it still holds) and after any call that met a failed p_mutex_unlock "
+                        "(it owns the internal mutex for ever: its next call would self-deadlock); nested rounds (trylock while holding) with failures are run as correspondence only",
                         "fewer than 2^15 threads use one lock simultaneously (field width of the packed counters; same limit in the C code)",
                         "programs are disciplined: every acquired lock is released by the same thread before its next blocking acquire (a trylock may be attempted while holding); unlock only of a held lock; a failed trylock skips the unlock",
-                        "allocation failure in p_rwlock_new is C18's business (note: the general model's p_rwlock_new continues after a failed sub-allocation: missing return NULL)",
+                        "allocation failure in p_rwlock_new: its four failure exits are run by `newfail K` (NULL returned, exactly the parts allocated before are released); the allocator-level enumeration is C18's business",
                         "posix model: pthread_rwlock_* is a trusted abstract machine; only the return-code mapping of prwlock-posix.c is checked"]
     return finish(chk)
 
